@@ -331,12 +331,12 @@ PROPS = {
         'rule': 'L: full lattice estimate size 1..8 x data size x prescribed condition number x magnitude x consistency x '
                 'weights x preconditioner x {float,double}, design matrices built from a fixed orthonormal basis and '
                 'prescribed singular values; every solver path against a Householder-QR reference in long double. '
-                'S: every sequence (to the stated depth) of 54 problem kinds (estimate size via setEstimateSize, data size, '
-                'solver path, preconditioner) solved with one solver object whose J/Y/W buffers are NaN-poisoned before '
+                'S: every sequence (to the stated depth) of 81 problem kinds (estimate size, data size, solver path, '
+                'preconditioner kept / two-argument / one-argument setter) solved with one solver object whose J/Y/W buffers are NaN-poisoned before '
                 'each problem; result vs a fresh solver. states = distinct (buffer rows, buffer cols, estimate size, '
                 'preconditioner) tuples, transitions = problems solved in S. non-trivial = kappa>1 or non-unit magnitude or '
                 'weights or preconditioner (L); any problem after the first (S).',
-        'assumptions': ['normal-equation accuracy bound 64 p eps kappa(J)^2; cases with kappa^2 eps > 0.05 carry no digits and are skipped (counted in trivial_skipped)',
+        'assumptions': ['normal-equation accuracy bound 8 p eps kappa(J)^2; cases with 8 p kappa^2 eps > 0.5 carry no digits and are skipped (counted in trivial_skipped)',
                         're-estimating without refilling after weightedEstimate is not in the alphabet (the weighted path overwrites J and Y in place)'],
         'tiers': {'quick': {'deadline': 400, 'case_timeout': 120}, 'thorough': {'deadline': 3300, 'case_timeout': 1200}},
         'technique': 'exhaustive enumeration of problem sequences on one solver object with NaN-poisoned buffers and fresh-object differential oracle, plus an exhaustive problem lattice against a QR reference',
